@@ -448,7 +448,16 @@ pub fn feature_mix_program(t: &mut Tape) -> String {
         s.push_str("#subruledef reg\n{\n    a => 0x1\n    b => 0x2\n    [{v: u4}] => v\n}\n#subruledef opnd\n{\n    {r: reg} => 0x0 @ r`4\n    #{v: u8} => v\n}\n");
         s.push_str("#ruledef\n{\n    ld {x: u8} => 0x10 @ x\n    ld {x: s16} => 0x11 @ x\n    mv {o: opnd} => 0x30 @ o\n");
         s.push_str("    jmp {a} => { assert(a - $ < 8 && a - $ >= -8), 0x2 @ (a - $)`4 }\n    jmp {a} => 0x20 @ a`16\n");
-        s.push_str("    two {a} => asm { ld {a}\n ld {a} + 1 }\n    far {a} => asm { jmp {a}\n .here:\n jmp .here }\n    halt => 0xff\n}\n");
+        s.push_str("    two {a} => asm { ld {a}\n ld {a} + 1 }\n    far {a} => asm { jmp {a}\n .here:\n jmp .here }\n    halt => 0xff\n");
+        if crate::engine::gen_version() >= 3 {
+            // v3: rule-body locals (one of them spelled with the `__` prefix the hygiene scheme uses itself) handed to an
+            // asm block by value; a function with such a parameter pair
+            s.push_str("    hyg {a} => {\n        t = a + 1\n        __t = 0x30\n        asm { ld {t} }\n    }\n");
+        }
+        s.push_str("}\n");
+        if crate::engine::gen_version() >= 3 {
+            s.push_str("#fn hyf(value, __value) => asm { ld {value} }\n");
+        }
     }
     let banked = t.chance(1, 4);
     if banked {
@@ -545,6 +554,11 @@ pub fn feature_mix_program(t: &mut Tape) -> String {
                 s.push_str(&format!(".l{}:\n", sym));
             }
             6 if has_rules => s.push_str(&format!("ld {}\n", call(t, &arity, faulty))),
+            7 if has_rules && crate::engine::gen_version() >= 3 => match t.draw(4) {
+                0 => s.push_str(&format!("hyg {}\n", t.draw(9))),
+                1 => s.push_str(&format!("#d hyf({}, 0xee)\n", t.draw(9))),
+                _ => s.push_str(&format!("two {}\n", t.draw(9))),
+            },
             7 if has_rules => s.push_str(&format!("two {}\n", t.draw(9))),
             8 => {
                 if !decl_cfg {
